@@ -59,6 +59,8 @@ SYN = [
      'patterns': [('C', 'C', 'fragment a{C labeled c1}'), ('H', 'none', 'fragment a{H labeled h1}'), ('O', 'O', 'fragment a{O labeled o1}'),
                   ('Crad', 'C', 'fragment a{C. labeled c1}')],
      'descr': [('CCbond', 'fragment a{C labeled c1 C labeled c2 single bond to c1}'), ('C(C)', 'fragment a{O labeled o1}'),
+               # a second declaration under an existing name: the counts of the two add up
+               ('CCbond', 'fragment a{C labeled c1 O labeled o1 single bond to c1}'),
                ('tri', 'fragment a{C labeled c1 C labeled c2 single bond to c1 C labeled c3 single bond to c2}')],
      'remaps': {'C(C)': [[0.5, 'X'], [2, 'Y']], 'CCbond': [[1, 'Y']], 'O(C)': [[3, 'C(C)2']], 'tri': [[0.25, 'C(C)2'], [1, 'tri2']]},
      'mols': ['CC', 'CCC', 'CCCC', 'CCO', 'C[CH2]', 'CC(C)C', 'C1CC1', 'COC', 'C', 'CO', 'C=C']},
@@ -104,7 +106,9 @@ def expo_lit(r):
 
 # tri- and tetra-substituted alkenes written with explicit stereo (both isomers), for the schemes with cis corrections
 STEREO = ['C/C=C(/C)CC', 'C/C=C(\\C)CC', 'C/C(CC)=C(\\C)CCC', 'C/C(CC)=C(/C)CCC', 'CC/C=C(/C)C(C)C', 'C/C=C/C', 'C/C=C\\C',
-          'C/C=C(/CC)CCC', 'C/C=C(\\CC)CCC', 'CC/C(C)=C(/C)CC', 'C/C=C/C=C\\C', 'F/C=C(/C)CC']
+          'C/C=C(/CC)CCC', 'C/C=C(\\CC)CCC', 'CC/C(C)=C(/C)CC', 'C/C=C/C=C\\C', 'F/C=C(/C)CC',
+          # two different declarations of ONE correction name (Cis, AlkaneGauche ...) matching in the same molecule
+          'C/C=C\\CCC=C(C)C', 'CC(C)C(C)CC(C)(C)CC', 'C/C=C\\CC(C)=C(C)C', 'CC(C)C(C)C(C)(C)C(C)C']
 
 
 # radicals next to atoms that carry neighbour-count constraints inside correction descriptors (ortho, cis, gauche)
